@@ -36,7 +36,7 @@ end spec
 /-- the value of a discriminant expression of the supported forms -/
 def DiscExpr.value? : DiscExpr → Option Int
   | .intLit n => some n
-  | .neg _ (.intLit n) => some (-(n : Int))
+  | .neg true (.intLit n) => some (-(n : Int))
   | _ => none
 
 /-- the name of a variant: the last `rename`, else the identifier -/
